@@ -71,3 +71,33 @@ def resolve_chain(start: int, t0: int, t1: int, t2: int) -> bool:
         return isinstance(res, ParseError) and "ircular" in (res.detail or "")
     # dangling (4) or missing table entry (5)
     return isinstance(res, ParseError)
+
+
+# ------------------------------------------------------------------------------------------------ malformed body references
+BAD_BODY_REFS = (
+    "https://remote.example/api.yaml#/components/requestBodies/n0",
+    "other.yaml#/components/requestBodies/n0",
+    "#/components/schemas/n0",
+    "#/components/responses/n0",
+    "#/components/requestBodies/missing",
+    "n0",
+    "",
+)
+
+
+def malformed_body_reference_is_diagnosed(bad: int, via_alias: bool) -> bool:
+    """
+    A request-body reference that is remote, relative to another file, points into another section or names nothing
+    is reported (a ParseError) - directly or behind a well-formed alias - and is never bound to a local body that
+    merely has the same last path segment.
+    pre: 0 <= bad < 7
+    post: _
+    """
+    ref = None
+    for i in range(len(BAD_BODY_REFS)):
+        if i == bad:
+            ref = oai.Reference.model_construct(ref=BAD_BODY_REFS[i])
+    table = {"n0": BODY, "n1": ref}
+    start = REFS[1] if via_alias else ref
+    res = _resolve_reference(start, table)
+    return isinstance(res, ParseError)
